@@ -4,7 +4,7 @@ import props.c03 as c03
 from props.bngen import hx
 
 GENERATED = ["ep2", "ep"]
-EXTRA_THEOREM_MODULES = ["RelicVerif.Lemmas.Ep2Formulas"]
+EXTRA_THEOREM_MODULES = ["RelicVerif.Lemmas.Ep2Formulas", "RelicVerif.Lemmas.Ep2Mul"]
 TRUSTED = [
     "translator tools/translate.py: the add/dbl templates instantiated for (ep2, fp2) and the wrappers of relic_ep2_add.c / relic_ep2_dbl.c are "
     "regenerated on every run; Lemmas/Ep2Formulas.lean checks by rfl that they are the same terms as the (ep, fp) instantiation, so the formula "
@@ -139,6 +139,30 @@ def gen_lines(rng, cv, count, outside):
         for al in (".p", ".q"):
             out.append("e2s %s%s %s %x %s %x" % (v, al, ptok(rng, cv, rng.choice(pool), "P"), 1 + rng.below(cv.n - 1),
                                                 ptok(rng, cv, rng.choice(pool), "P"), 1 + rng.below(cv.n - 1)))
+    # the Frobenius paths of the two-point and many-point routines: both scalars short combinations of powers of the eigenvalue (zero,
+    # negative and mixed-sign sub-scalars in every position, for either operand)
+    fro = lambda cs: sum(c * pow(L, i, cv.n) for i, c in enumerate(cs)) % cv.n
+    for v in ("inter", "sim", "gen", "basic"):
+        for _ in range(3):
+            out.append("e2s %s %s %x %s %x" % (v, ptok(rng, cv, rng.choice(pool + [cv.g]), "P"), fro(rng.choice(pats)),
+                                              ptok(rng, cv, rng.choice(pool), "P"), fro(rng.choice(pats))))
+    for n_ in (1, 2, 4):
+        toks = []
+        for _ in range(n_):
+            toks += [ptok(rng, cv, rng.choice(pool + [cv.g])), hx(rng.choice([fro(rng.choice(pats)), -fro(rng.choice(pats)), c03.scalar(rng, cv.n)]))]
+        out.append("e2l %d %s" % (n_, " ".join(toks)))
+    # single-digit scalars: the longest digit first / last / in the middle, a zero digit, equal lengths
+    for ds in ([(1 << 63) + 5, 3], [3, (1 << 63) + 5], [7, (1 << 40) + 1, 2], [0, 9], [(1 << 64) - 1, (1 << 64) - 1], [1]):
+        toks = []
+        for dg in ds:
+            toks += [ptok(rng, cv, rng.choice(pool + [cv.g])), hx(dg)]
+        out.append("e2d %d %s" % (len(ds), " ".join(toks)))
+    # identity as fixed base for every table form; sliding window at the capacity of its buffer (RLC_FP_BITS + 1 windows), both signs
+    for v in ("fix_basic", "fix_combs", "fix_combd", "fix_lwnaf", "fix_"):
+        out.append("e2m %s %d inf %s" % (v, rng.below(2), hx(1 + rng.below(cv.n - 1))))
+    for bl in (255, 256, 257, 258, 300):
+        kk = (1 << (bl - 1)) | rng.bits(bl - 1) | 1
+        out.append("e2m slide %d %s %s" % (rng.below(2), ptok(rng, cv, rng.choice(pool), "P"), hx(kk if rng.chance(1, 2) else -kk)))
     for _ in range(count):
         k = rng.below(100)
         if k < 22:
